@@ -415,6 +415,12 @@ func c13Run(c c13in) func(w *World) []Violation {
 				}
 			}
 		}
+		// the declared length is part of the target's response, also when no body follows (HEAD)
+		if o.Header != nil && !rp.Chunked && rp.Raw == nil && wantStatus != 204 && wantStatus != 304 {
+			if g, want := o.Header.Get("Content-Length"), fmt.Sprint(len(rp.Body)); g != want {
+				add("response-header-altered Content-Length", fmt.Sprintf("client saw Content-Length %q, target sent %q (method %s)", g, want, c.method))
+			}
+		}
 		if c.method == "HEAD" || wantStatus == 204 {
 			wantBody = nil
 		}
